@@ -465,7 +465,7 @@ def _bpm_shapes(tier):
     if tier == 'quick':
         mn = [(1, 1), (1, 2), (2, 2), (2, 3), (3, 3), (3, 5), (4, 4)]
     else:
-        mn = [(m, n) for m in range(1, 7) for n in range(m, m + 3)] + [(63, 63), (64, 64), (65, 65), (64, 66), (128, 128)]
+        mn = [(m, n) for m in range(1, 7) for n in range(m, m + 3)] + [(63, 63), (64, 64), (64, 66)]      # (65,65) and (128,128): two and more 64-bit blocks with carries exhaust 30 GB, not registered
     if tier == 'quick':
         mn += [(64, 64)]          # block boundary: last block completely filled (no wildcard padding)
     for m, n in mn:
@@ -478,7 +478,7 @@ def _bpm_shapes(tier):
     return out
 Q(id='C11.bpm_block', props=['C11', 'C12'], cls='B', harness='c11_bpm_block.c', entry='h_c11_bpm_block', shapes=_bpm_shapes,
   mode='wrap', timeout=1800, funcs=['bpm_block', 'bpm'], trusted=[TRUST_MSG],
-  assumptions=[A_WRAP, 'bounded: pattern 1-4 (thorough 1-6) symbols fully symbolic over 3 symbols; patterns of 63/64/65/128 symbols with only the last 5 (8) symbols of text and pattern symbolic over 2 symbols'],
+  assumptions=[A_WRAP, 'bounded: pattern 1-4 (thorough 1-6) symbols fully symbolic over 3 symbols; patterns of 63 / 64 symbols (one block, block boundary) with only the last 5 (8) symbols of text and pattern symbolic over 2 symbols; patterns that need two or more blocks (65, 128) exhaust 30 GB and are NOT covered'],
   native_srcs=['lib/src/tldevel.c'])
 
 # =========================================================================== C16 lifecycle
@@ -936,3 +936,6 @@ PROPS['C16'].update(
     level_text=('static facts: the complete list of objects with static storage in lib/src and src is the expected constant tables, no random numbers are drawn by library code reachable from the API, the OpenMP thread count is set on every call; '
                 'proved: kalign_run creates and releases each per-call object once (protocol); bounded contract checks with CBMC memory-leak detection on every constructor/destructor pair, on the readers, and on the whole kalign_run lifecycle of a reader-shaped msa with empty sequences '
                 '(everything allocated is freed, every field later read is initialised: an uninitialised field is nondeterministic heap content to the verifier and fails the post-condition)'))
+PROPS['C11'].update(
+    level_note=('bpm_256 (AVX2 intrinsics) is not verified; bpm_block only bounded: one 64-bit block incl. the block boundary (63, 64 symbols, text up to 66) -- patterns that need two or more blocks (carry between blocks) '
+                'exhaust 30 GB and are NOT covered by a finished query; text symbols < 13 assumed at the read site (data invariant from convert_msa_to_internal)'))
